@@ -4,7 +4,7 @@
    model's algorithms: a plain functional map replayed over the history (Registry.pstep),
    declarative conditions on transcripts (firstn, no loop), and for concurrent first Gets the
    property itself (all results equal, exactly one Auto change). *)
-From SC Require Import Base.Prelude Router.Registry Router.Pump Router.Route Router.RouterGet Router.RouterCb Router.RegistryW Router.RouteW Router.NameDefault.
+From SC Require Import Base.Prelude Router.Registry Router.Pump Router.Route Router.RouterGet Router.RouterCb Router.RegistryW Router.RouterCbW Router.RouteW Router.NameDefault.
 
 Inductive c12case :=
 | KHist (g : cfg) (first : Z) (ops : list hop) (obs : list hres) (log : list change)
@@ -17,6 +17,11 @@ Inductive c12case :=
 (* bare registry built from any subset of the options, every Get with its own fallback/factory
    outcome (RegistryW.v); obs carry the number of fallback and factory calls made *)
 | KRegW (o : wopts) (ops : list wop) (obs : list wres) (log : list change)
+(* concurrent calls with PER-CALL fallback/factory outcomes (RouterCbW.v): every Get thread carries
+   what its own fallback call and its own factory call return; router built from a subset of
+   WithFallback / WithFactory (+ WithOnChange, parked on entry as in KSchedCb); fresh router *)
+| KSchedW (o : wopts) (ths : list wkind) (sched : list nat) (obs : list rres) (cbs : list change)
+          (final : list (string * client))
 (* a generated router built from any subset of the options; every lookup (Router.Get, GetXxxClient,
    unary and streaming methods) with its own fallback/factory outcome (RouteW.v); fe/ae = the
    statuses of the errors this router's fallback and factory return; obs carry BOTH results of
@@ -57,6 +62,14 @@ Definition agrees (c : c12case) : bool :=
   | KRegW o ops obs log =>
       let '(s, rs) := wrun o (init 1) ops in
       list_eqb wres_eqb obs rs && list_eqb change_eqb log (wlog o s)
+  | KSchedW o ths sched obs cbs final =>
+      let G := cgrunW o ths sched (cginitW (init 1) ths) in
+      match cpcs_results (cpcs G) with
+      | Some rs =>
+          list_eqb rres_eqb obs rs && list_eqb change_eqb cbs (ccbs G)
+          && forallb (fun nc => or_nil (find (fst nc) (sreg (cst G))) =? snd nc) final
+      | None => false
+      end
   | KRouteW o fe ae ops obs log =>
       let '(s, rs) := xrun o fe ae (init 1) ops in
       list_eqb xres_eqb obs rs && list_eqb change_eqb log (wlog o s)
@@ -242,6 +255,66 @@ Definition cb_ok (g : cfg) (first : Z) (pre : list rop) (ths : list tkind) (sche
   && implb (nodup_changes (slog (cst G))) (nodup_changes newcbs)
   && perm_eqb cbs (slog (cst G)).
 
+(* ---- concurrent Gets with per-call outcomes (no use of the LTS for the Get clause) ----
+   what a fallback / factory call yields as far as Get is concerned: a non-nil client without an error *)
+Definition fb_yield (o : wopts) (fbo : fout) : option client := if w_fb o then yields fbo else None.
+Definition fac_yield (o : wopts) (fao : fout) : option client := if w_fac o then yields fao else None.
+
+Definition same_getw_name (ths : list wkind) : option string :=
+  match ths with
+  | WTGet n _ _ :: r =>
+      if forallb (fun k => match k with WTGet m _ _ => String.eqb m n | _ => false end) r then Some n else None
+  | _ => None
+  end.
+
+Fixpoint all2 {A B} (f : A -> B -> bool) (l1 : list A) (l2 : list B) : bool :=
+  match l1, l2 with
+  | [], [] => true
+  | a :: l1', b :: l2' => f a b && all2 f l1' l2'
+  | _, _ => false
+  end.
+
+(* a Get's result is justified by its OWN calls and the one committed client: the client its own
+   fallback yielded, or the committed client, or NotFound when neither of its own calls yielded one *)
+Definition getw_res_ok (o : wopts) (commit : option client) (k : wkind) (r : rres) : bool :=
+  match k, r with
+  | WTGet _ fbo fao, RGet (Got c) => option_eqb Z.eqb (fb_yield o fbo) (Some c) || option_eqb Z.eqb commit (Some c)
+  | WTGet _ fbo fao, RGet (NotFound _) =>
+      match fb_yield o fbo, fac_yield o fao with None, None => true | _, _ => false end
+  | _, _ => false
+  end.
+
+(* all calls returned.  Any threads: the callbacks are a permutation of the transition log (commit
+   order, from RouterCbW.v's run of the same schedule).  Concurrent first Gets of one name on a fresh
+   router, each with its own fallback/factory outcomes: at most ONE Auto change nil -> c was reported
+   and nothing else; c is what some caller's own factory yielded after its own fallback missed;
+   every result is justified (getw_res_ok); the registry holds c (or nothing) *)
+Definition schedw_ok (o : wopts) (ths : list wkind) (sched : list nat) (obs : list rres) (cbs : list change)
+           (final : list (string * client)) : bool :=
+  let G := cgrunW o ths sched (cginitW (init 1) ths) in
+  perm_eqb cbs (slog (cst G)) &&
+  match same_getw_name ths with
+  | None => true
+  | Some n =>
+      match cbs with
+      | [] => all2 (getw_res_ok o None) ths obs
+              && forallb (fun nc => negb (String.eqb (fst nc) n) || (snd nc =? nil_client)) final
+      | [ch] =>
+          cauto ch && String.eqb (cname ch) n && (cold ch =? nil_client)
+          && existsb (fun k => match k with
+                               | WTGet _ fbo fao =>
+                                   match fb_yield o fbo with
+                                   | None => option_eqb Z.eqb (fac_yield o fao) (Some (cnew ch))
+                                   | Some _ => false
+                                   end
+                               | _ => false
+                               end) ths
+          && all2 (getw_res_ok o (Some (cnew ch))) ths obs
+          && forallb (fun nc => negb (String.eqb (fst nc) n) || (snd nc =? cnew ch)) final
+      | _ => false
+      end
+  end.
+
 Definition wres_sim (a b : wres) : bool :=
   let '(WR r1 a1 b1) := a in let '(WR r2 a2 b2) := b in rres_sim r1 r2 && (a1 =? a2) && (b1 =? b2).
 
@@ -337,6 +410,7 @@ Definition C12_ok (c : c12case) : bool :=
   | KSched g first pre ths sched obs log final => sched_ok g first pre ths obs log final
   | KSchedCb g first pre ths sched obs cbs final => cb_ok g first pre ths sched obs cbs final
   | KRegW o ops obs log => regw_ok o ops obs log
+  | KSchedW o ths sched obs cbs final => schedw_ok o ths sched obs cbs final
   | KRouteW o fe ae ops obs log => routew_ok o ops obs log
   | KDefault name r obs => default_ok name true r obs
   | KDefaultStream name ok r obs => default_ok name ok r obs
